@@ -18,9 +18,10 @@ import AsyncsshModel.Base.Hex
   The environment (asyncio socket transport, SSH channel, the `_forward` task) produces the events; the
   relay answers with calls on the two transports, which are the outputs.
 
-  `Variant.asIs` is the code as it stands.  `Variant.fixed` adds the two one-line repairs proposed in the
-  C20 report (close both halves once EOF has been seen in both directions; close the freshly opened channel
-  when the socket was lost while the channel was being opened); the theorems say which statements need them.
+  `Variant.asIs` is the code as it stands.  A `Variant` says which of the two small repairs proposed in the
+  C20 report are present (close both halves once EOF has been seen in both directions; close the freshly opened
+  channel when the socket was lost while the channel was being opened); the theorems say which statements need
+  which repair, and the correspondence run tells which variant the checked tree follows.
 -/
 namespace AsyncsshModel.Forward
 open AsyncsshModel
@@ -33,9 +34,16 @@ def Side.other : Side → Side
   | .sock => .chan
   | .chan => .sock
 
-inductive Variant where
-  | asIs | fixed
+/-- which of the two repairs proposed in the C20 report the modelled code contains -/
+structure Variant where
+  fixEof : Bool      -- `eof_received` closes both halves once EOF has been seen in both directions
+  fixEarly : Bool    -- `_forward` closes the new channel when the socket was lost while it was being opened
   deriving DecidableEq, Repr
+
+/-- the code as it stands -/
+def Variant.asIs : Variant := ⟨false, false⟩
+/-- the code with both repairs -/
+def Variant.fixed : Variant := ⟨true, true⟩
 
 /-- one `SSHForwarder` object -/
 structure Fwd where
@@ -127,13 +135,11 @@ def step (v : Variant) (r : Relay) : Ev → Relay × List Out
     if fx.peer then
       let fy := r.get x.other
       let o := if fy.tr then [Out.writeEof x.other] else []
-      match v with
-      | .asIs => (r1, o ++ [.eofRet x (!fy.eof)])           -- `return not self._peer.was_eof_received()`
-      | .fixed =>
-        if fy.eof then
-          let (r2, oc) := closeFwd r1 x                       -- repair: both directions are finished
-          (r2, o ++ oc ++ [.eofRet x false])
-        else (r1, o ++ [.eofRet x true])
+      if !v.fixEof then (r1, o ++ [.eofRet x (!fy.eof)])    -- `return not self._peer.was_eof_received()`
+      else if fy.eof then
+        let (r2, oc) := closeFwd r1 x                         -- repair: both directions are finished
+        (r2, o ++ oc ++ [.eofRet x false])
+      else (r1, o ++ [.eofRet x true])
     else (r1, [.eofRet x true])
   | .lost x =>
     if !r.has x then (r, []) else
@@ -153,7 +159,7 @@ def step (v : Variant) (r : Relay) : Ev → Relay × List Out
     let s1 := { r.s with peer := true }
     let c1 : Fwd := { tr := true, peer := true }
     let early := !r.s.tr
-    if v == .fixed && early then
+    if v.fixEarly && early then
       -- repair: `if not self._transport: self._peer.close(); return`
       closeFwd { s := s1, c := c1, phase := .linked, early := true } .chan
     else
@@ -369,7 +375,7 @@ def closeAll : List (LKey × Nat) → LState → LState
   | [], s => s
   | (k, id) :: r, s => closeAll r (closeL s k id)
 
-def lstep (v : Variant) (s : LState) : LEv → LState
+def lstep (fix : Bool) (s : LState) : LEv → LState
   | .request k granted =>
     if granted then { s with pending := s.pending ++ [(s.next, k)], next := s.next + 1 } else s
   | .created id =>
@@ -379,7 +385,7 @@ def lstep (v : Variant) (s : LState) : LEv → LState
       let s1 := { s with pending := s.pending.filter (·.1 != id) }
       if (s.table.find? (·.1 == k)).isSome then s1  -- the address is still bound by a listener of this
                                                     -- connection: `bind` fails (kernel), OSError path
-      else if v == .fixed && s.cleaned then s1      -- repair: the connection is gone, close the new socket
+      else if fix && s.cleaned then s1              -- repair: the connection is gone, close the new socket
       else { s1 with table := (k, id) :: s1.table, listening := id :: s1.listening }
   | .createFailed id => { s with pending := s.pending.filter (·.1 != id) }
   | .cancel k =>
@@ -392,8 +398,8 @@ def lstep (v : Variant) (s : LState) : LEv → LState
     | some (k, _) => closeL s k id
   | .cleanup => { closeAll s.table s with cleaned := true }
 
-def lrun (v : Variant) : LState → List LEv → LState
+def lrun (fix : Bool) : LState → List LEv → LState
   | s, [] => s
-  | s, e :: es => lrun v (lstep v s e) es
+  | s, e :: es => lrun fix (lstep fix s e) es
 
 end AsyncsshModel.Forward
